@@ -592,8 +592,8 @@ func genPendingCluster(r *lib.Rng) *Case {
 // the builder compares an upstream type a with a downstream type b (checkAssignable at an
 // edge between START/END, between two lambdas, through a passthrough node, at a branch
 // condition, at a branch typing its passthrough start node; type identity at a state
-// handler), as the smallest graph that has it.
-const pairShapes = 6
+// handler; the converter behind the any-typed state handler of a passthrough node), as the smallest graph that has it.
+const pairShapes = 7
 
 func genPair(i int) *Case {
 	n := len(allTypes)
@@ -638,6 +638,19 @@ func genPair(i int) *Case {
 			add(Op{K: "node", Key: 2, In: a, Out: a, Pre: h})
 		} else {
 			add(Op{K: "node", Key: 2, In: a, Out: a, Post: h})
+		}
+		add(Op{K: "edge", S: 0, E: 2})
+		add(Op{K: "edge", S: 2, E: 1})
+	case 6: // START:a -> P -> END:a, P with an any-typed state handler that returns a value of type b:
+		// the result is checked against the type inferred for P (ordinary error unless it is an a)
+		c.Out = a
+		c.State = 1
+		vals := optionsFor(b)
+		h := &H{State: 1, Ty: "any", Ret: vals[(i/pairShapes)%len(vals)], Strm: (i/pairShapes)%3 == 1}
+		if i%2 == 0 {
+			add(Op{K: "pass", Key: 2, Pre: h})
+		} else {
+			add(Op{K: "pass", Key: 2, Post: h})
 		}
 		add(Op{K: "edge", S: 0, E: 2})
 		add(Op{K: "edge", S: 2, E: 1})
